@@ -58,7 +58,45 @@ def families():
         out.append(_comb(n))
     for d in range(1, 7):
         out.append(_binary(d))
+    # ratios next to a rounding boundary (children / non-leaf features = x.xx5...)
+    for (c, b) in ((130, 107), (191, 107), (243, 200), (1003, 401), (7, 8), (9, 8), (201, 200)):
+        if c >= b:
+            out.append(_ratio_model(c, b))
     return out
+
+
+def _ratio_model(children, branches):
+    """`branches` non-leaf features with `children` children in total, at most ~50 levels deep:
+    the root owns r chains of non-leaf features; extra leaves are hung from the chain nodes."""
+    seg = 50
+    inner = branches - 1
+    r = max(1, -(-inner // seg))
+    extra = children - inner - r
+    if inner == 0 or extra < 0:
+        r, extra = 1, children - branches      # plain chain
+    counter = [0]
+    chains = []
+    left = inner
+    for ci in range(r):
+        length = min(seg, left) if r > 1 else left
+        left -= length
+        f = sh.F('Z%d' % ci)
+        for k in range(length):
+            rels = [sh.R(1, 1, [f])]
+            if counter[0] < extra:
+                rels.append(sh.R(0, 1, [sh.F('X%d' % counter[0])]))
+                counter[0] += 1
+            f = sh.F('Y%d_%d' % (ci, k), rels)
+        chains.append(f)
+    root_rels = [sh.R(1, 1, [c]) for c in chains]
+    while counter[0] < extra:
+        root_rels.append(sh.R(0, 1, [sh.F('X%d' % counter[0])]))
+        counter[0] += 1
+    return sh.M(sh.F('Rt', root_rels))
+
+
+def F_leaf(name):
+    return sh.F(name)
 
 
 def corpus_files(max_features=None):
@@ -87,6 +125,9 @@ def cases(tier, seed):
         yield ('X', rel)
     for m in sp.structures_upto(3 if tier == 'quick' else 4):
         yield ('SE', m)
+    from . import families as fam
+    for spec in fam.BIG_SPECS:
+        yield ('B', spec)
 
 
 def plan(tier):
@@ -102,13 +143,15 @@ def plan(tier):
 
 
 def describe(case):
+    if case[0] == 'B':
+        return 'B:%s' % (case[1],)
     if case[0] == 'X':
         return 'X:' + case[1]
     return cm.describe_model_case(case)
 
 
 def reduce(case):
-    if case[0] == 'X':
+    if case[0] in ('X', 'B'):
         return
     if case[0] == 'SE':
         for c in cm.reduce_model_case(('S', case[1])):
@@ -121,13 +164,13 @@ def reduce(case):
 
 
 def normalize(case):
-    if case[0] == 'X':
+    if case[0] in ('X', 'B'):
         return case
     return (case[0], sh.normalize_names(case[1], sp.NAME_POOL))
 
 
 def nontrivial(case):
-    return case[0] == 'X' or sh.size(case[1]) > 1
+    return case[0] in ('X', 'B') or sh.size(case[1]) > 1
 
 
 def selftest():
@@ -177,9 +220,14 @@ def oracle(fm, model, ops=None):
         if isinstance(res, bool) or not isinstance(res, (int, float)):
             out.append(Fail('branching-factor', {'got': repr(res)}))
         elif nonleaf:
-            want = sum(len(k) for f in nonleaf for (_a, _b, k) in f[1]) / len(nonleaf)
-            if abs(res - want) > 0.005 + 1e-9 or round(res, 2) != res:
-                out.append(Fail('branching-factor', {'got': res, 'want': round(want, 4)}))
+            from fractions import Fraction
+            import math
+            q = Fraction(sum(len(k) for f in nonleaf for (_a, _b, k) in f[1]), len(nonleaf)) * 100
+            lo = math.floor(q)
+            frac = q - lo
+            wants = {lo / 100} if frac < Fraction(1, 2) else {(lo + 1) / 100} if frac > Fraction(1, 2) else {lo / 100, (lo + 1) / 100}
+            if not any(abs(res - w) < 1e-9 for w in wants):
+                out.append(Fail('branching-factor', {'got': res, 'want': sorted(wants), 'exact': float(q / 100)}))
     # ancestors for every feature
     byname = {}
     try:
@@ -235,6 +283,11 @@ def check(case):
             return [Fail('xmlreader-raises:%s' % type(exc).__name__, str(exc)[:200])]
         engine.validated()
         return oracle(fm, model)
+    if case[0] == 'B':
+        from . import families as fam
+        model = fam.big_build(case[1])
+        fm, fails = cm.built(model)
+        return fails or oracle(fm, model)
     model = case[1]
     if case[0] == 'SE':
         from .c03 import inplace_edits
@@ -261,6 +314,8 @@ def check(case):
 
 
 def outcome(case):
+    if case[0] == 'B':
+        return 'big'
     if case[0] == 'X':
         return 'file:' + case[1].split('/')[0]
     return 'leaves=%d' % sum(1 for f in sh.features(case[1]) if not f[1])
